@@ -74,6 +74,8 @@ def scan_assumptions(gen):
     for k, ln in enumerate(gen.lines):
         code = re.sub(r"//.*", "", ln)
         mt = pat.search(code)
+        if mt and "contract proved by" in ln:
+            continue  # stub whose contract is discharged by another unit / a Kani harness (listed with the item)
         if mt:
             # describe by the next fn / item name on this or following lines
             ctx = ""
